@@ -27,9 +27,4 @@ HARNESSES.append(dict(COMMON, name="default_nodeset", entry="h_default_nodeset",
 for e in (0, 1):
     HARNESSES.append(dict(COMMON, name="dup" if e == 0 else "dup_emptied", entry="h_dup", defines={"EMPT": e}, encoded=["hwloc_internal_memattrs_dup", "hwloc_bitmap_tma_dup", "hwloc_tma_strdup"], tiers={"quick": {}, "thorough": {}},
                           bounds="the table with cpuset and object initiators, arbitrary values" + ("; after a refresh removed every target of the custom attribute (array still allocated)" if e else "")))
-# the XML round trip is decided by the element-tree harness of C05 (same source, same query)
-import importlib.util as _iu, os as _os
-_s = _iu.spec_from_file_location("spec_C05", _os.path.join(_os.path.dirname(__file__), "C05.py")); _m5 = _iu.module_from_spec(_s); _s.loader.exec_module(_m5)
-for _h in _m5.HARNESSES:
-    if _h["name"] in ['xml_roundtrip_memattrs']: _h2 = dict(_h); _h2["name"] = "C05_" + _h["name"]; HARNESSES.append(_h2)
-OUTSIDE = ["hwloc_topology_get_default_nodeset", "memory-tier guessing (string heuristics)", "attributes without NEED_INITIATOR beyond Capacity/Locality", "XML/dup persistence (C05/C12)", "more than 2 targets x 2 initiators"]
+OUTSIDE = ["memory-tier guessing (string heuristics)", "attributes without NEED_INITIATOR beyond Capacity/Locality", "XML round trip of the table (import on crafted elements: C06; the export -> import round trip is a stretch harness of C05 that ends without verdict: CBMC 6.11 loses the cpuset member of the initiator union, which is not its first member)", "more than 2 targets x 2 initiators"]
